@@ -40,6 +40,7 @@ def parseBeh (s : String) : Nat → Except Exc HAct :=
   let s := clean s
   if s = "o" then fun _ => .ok .stay
   else if s = "r" then fun _ => .error .runtimeError
+  else if s.startsWith "e" then fun _ => .error .runtimeError      -- raises one of a richer set of exceptions
   else if s = "x" then fun _ => .ok .removeSelf
   else if s.startsWith "k" then
     let k := ((s.drop 1).toString.toNat?).getD 0
@@ -140,6 +141,8 @@ def parseOp (s : String) : Option Op :=
   | ["get"] => some .get
   | ["setq", v] => (nat? v).map .setq
   | ["rd", h, p] => (nat? h).map (.regDyn · (p == "1"))
+  | ["prd", h] => (nat? h).map (.regDyn · false)     -- @on_trait_change(..., post_init=True): attached after the
+  | ["pro", h] => (nat? h).map .regObs                -- @observe(..., post_init=True):   initial state is set
   | ["ird", h] => (nat? h).map (.regDyn · false)
   | ["ird", h, _] => (nat? h).map (.regDyn · false)      -- decorated method with a magic name: same registration
   | ["ud", h] => (nat? h).map .unregDyn
